@@ -298,6 +298,20 @@ def gen_cand_query(rng, b):
                 required = [[rng.choice([T_AVX, T_SSD, T_CUSTOM])]]
         groups.append({'suffix': s, 'resources': resources, 'required': required, 'forbidden': forbidden,
                        'member_of': member_of, 'forbidden_aggs': forbidden_aggs, 'in_tree': in_tree})
+    # twin groups: two suffixed groups asking for the same classes and amounts under different filters
+    # (anything keyed by (class, amount) alone must not leak from one group into the other)
+    suff = [gr for gr in groups if gr['suffix'] != 0 and gr['resources']]
+    if len(suff) >= 2 and rng.random() < 0.3:
+        a, c = suff[0], suff[1]
+        c['resources'] = list(a['resources'])
+        if v >= 31 and b.providers:
+            roots = sorted(set(b.st.rps[u][4] for u in b.providers))
+            ta = rng.choice(roots)
+            tc = rng.choice([r for r in roots if r != ta] or roots)
+            pick = lambda root: rng.choice([u for u in b.providers if b.st.rps[u][4] == root])       # noqa: E731
+            kind = rng.random()
+            a['in_tree'] = pick(ta) if kind < 0.8 else None
+            c['in_tree'] = pick(tc) if kind > 0.2 else None
     if rng.random() < 0.3:
         rng.shuffle(groups)
     policy = 'absent'
@@ -588,7 +602,8 @@ SPEC_CODES = {0: 'spec = model', 5: 'SPEC DIFFERS FROM MODEL', 6: 'model gives n
 SPEC_DIFFS = []
 
 
-def run(seed, n_states, n_queries, shard=20, workdir=None, verbose=True, keep=False, max_spec_print=6):
+def run(seed, n_states, n_queries, shard=20, workdir=None, verbose=True, keep=False, max_spec_print=6,
+        p_cand=0.7, on_answer=None):
     """-> list of disagreements (dicts with the state's ops and dump, the query, its HTTP form, the observed
     canonical answer and the model's answer); statistics of the run are left in LAST_STATS"""
     rng = random.Random(seed)
@@ -599,8 +614,10 @@ def run(seed, n_states, n_queries, shard=20, workdir=None, verbose=True, keep=Fa
         app, b = build_state(rng)
         cases = []
         for _ in range(n_queries):
-            q = gen_cand_query(rng, b) if rng.random() < 0.7 else gen_list_query(rng, b)
+            q = gen_cand_query(rng, b) if rng.random() < p_cand else gen_list_query(rng, b)
             obs, r = ask(app, b, q)
+            if on_answer is not None:
+                on_answer(app, b, q, obs, r)      # implementation-side oracles while the state is alive
             cases.append((q, obs))
         app.close()
         states.append((b, cases))
